@@ -30,6 +30,8 @@ func c18Jobs(tier string, seed int64) []string {
 		"xml:text:1", "xml:val:1", "xml:key:1", "xml:ekey:1", "xml:nested:1", "xml:text:0", "xml:text:2",
 		"html:text:1", "html:key:1", "html:val:1", "html:style:1", "html:link:1", "html:file:1", "html:class:1", "html:table:1",
 		"html:cut:0", "html:cut:1", "html:cut:3",
+		// symbolic runes behind a concrete context: sequences that are markup only as a whole (]]> &#..; <!-- CR LF)
+		"xml:text:1:]]", "xml:val:1:]]", "html:text:1:]]", "html:val:1:]]", "xml:text:1:&#", "html:text:1:&#3", "xml:text:1:<!-", "xml:text:1:a\r", "xml:val:1:a\r", "html:style:1:]]",
 	}
 	if tier == "thorough" {
 		jobs = append(jobs, "xml:val:2", "xml:key:2", "xml:ekey:2", "html:text:2", "html:style:2", "html:link:2", "html:key:2", "html:cut:4", "html:cut:5")
@@ -46,6 +48,9 @@ func xmlRunes(name string, n int) []rune {
 			sym.Or(sym.And(r >= 0x20, r <= 0xD7FF), sym.Or(sym.And(r >= 0xE000, r <= 0xFFFD), sym.And(r >= 0x10000, r <= 0x10FFFF))))
 		sym.Assume(legal)
 		rs[i] = r
+	}
+	if len(c18Prefix) > 0 {
+		rs = append(append([]rune{}, c18Prefix...), rs...)
 	}
 	return rs
 }
@@ -99,9 +104,16 @@ func countElems(e *xelem, name string) int {
 	return n
 }
 
+// c18Prefix is the concrete context in front of the symbolic runes of the current job.
+var c18Prefix []rune
+
 func c18Run(job string) {
-	parts := strings.Split(job, ":")
+	parts := strings.SplitN(job, ":", 4)
 	n, _ := strconv.Atoi(parts[2])
+	c18Prefix = nil
+	if len(parts) == 4 {
+		c18Prefix = []rune(strings.ReplaceAll(parts[3], "\\r", "\r"))
+	}
 	if parts[0] == "xml" {
 		c18XML(parts[1], n)
 	} else {
